@@ -1831,8 +1831,10 @@ func c18JoinReportsFailure(p *Program, r *Report) {
 			continue
 		}
 		g := p.ig(fn)
-		// the returned variable: phis reachable from the operands of the returns
+		// the returned variable: the phis reachable from the operands of the returns, or — when the variable lives in a cell
+		// (captured by a closure, or a named result with a defer) — that cell
 		chain := map[ssa.Value]bool{}
+		cells := map[ssa.Value]bool{}
 		var collect func(v ssa.Value)
 		collect = func(v ssa.Value) {
 			if ph, ok := v.(*ssa.Phi); ok && !chain[v] {
@@ -1841,15 +1843,29 @@ func c18JoinReportsFailure(p *Program, r *Report) {
 					collect(e)
 				}
 			}
+			if u, ok := v.(*ssa.UnOp); ok && u.Op == token.MUL {
+				if al, isAl := u.X.(*ssa.Alloc); isAl {
+					cells[al] = true
+				}
+			}
 		}
+		finals := map[int]bool{} // returns that hand out the variable
 		for _, ex := range g.Exits {
-			collect(retOperand(g.Nodes[ex].(*ssa.Return), 0))
+			op := retOperand(g.Nodes[ex].(*ssa.Return), 0)
+			before := len(chain) + len(cells)
+			collect(op)
+			if _, isPhi := op.(*ssa.Phi); isPhi || len(chain)+len(cells) != before {
+				finals[ex] = true
+			} else if u, ok := op.(*ssa.UnOp); ok && u.Op == token.MUL && cells[u.X] {
+				finals[ex] = true
+			}
 		}
-		if len(chain) == 0 {
+		if len(chain)+len(cells) == 0 || len(finals) == 0 {
 			continue
 		}
-		// edges on which a fresh, possibly non-nil value enters the variable, keyed by that value
+		// where a fresh value enters the variable, keyed by that value: edges into the phis, stores into the cell
 		record := map[ssa.Value]map[edge]bool{}
+		recordN := map[ssa.Value]map[int]bool{}
 		for v := range chain {
 			ph := v.(*ssa.Phi)
 			blk := ph.Block()
@@ -1869,18 +1885,13 @@ func c18JoinReportsFailure(p *Program, r *Report) {
 				}
 			}
 		}
-		// the end of an iteration: arrival at the loop header that carries the variable (the first node of a block holding one of
-		// its phis and having a back edge)
-		iterEnd := map[int]bool{}
-		for v := range chain {
-			blk := v.(*ssa.Phi).Block()
-			first := g.Idx[blk.Instrs[0]]
-			if g.ReachAfter(first, nil, nil)[first] {
-				iterEnd[first] = true
+		for i, in := range g.Nodes {
+			if st, ok := in.(*ssa.Store); ok && cells[st.Addr] && !isNilConst(st.Val) {
+				if recordN[st.Val] == nil {
+					recordN[st.Val] = map[int]bool{}
+				}
+				recordN[st.Val][i] = true
 			}
-		}
-		if len(iterEnd) == 0 {
-			continue
 		}
 		for _, ifi := range g.ifs() {
 			for _, outcome := range []bool{true, false} {
@@ -1897,9 +1908,8 @@ func c18JoinReportsFailure(p *Program, r *Report) {
 				}
 				n++
 				e := g.branchEdge(ifi, outcome)
-				rec := record[ssa.Value(ex)]
-				lost := anyOf(g.Reach([]int{e.to}, nil, rec), iterEnd) || iterEnd[e.to]
-				r.Check(!lost, "failure of "+shortCallee(&ex.Tuple.(*ssa.Call).Call)+" is recorded in "+fnName(fn), ifi.Cond.Pos(), "from the err != nil edge every path to the next seed assigns this error to the variable the attempt finally returns: an attempt in which no seed could be asked is never reported as a success")
+				lost := anyOf(g.Reach([]int{e.to}, recordN[ssa.Value(ex)], record[ssa.Value(ex)]), finals) && !recordN[ssa.Value(ex)][e.to]
+				r.Check(!lost, "failure of "+shortCallee(&ex.Tuple.(*ssa.Call).Call)+" is recorded in "+fnName(fn), ifi.Cond.Pos(), "from the err != nil edge no path reaches the return of the attempt's result variable without assigning this error to it: an attempt in which no seed could be asked is never reported as a success")
 			}
 		}
 	}
